@@ -4,8 +4,11 @@ import (
 	"bytes"
 	"fmt"
 	"math/big"
+	"runtime"
+	"runtime/debug"
 	"slices"
 	"strings"
+	"sync"
 
 	"github.com/canopy-network/canopy/lib"
 	"github.com/canopy-network/canopy/lib/crypto"
@@ -47,7 +50,7 @@ const MaxTail = 8
 
 // recipe classes: a path that uses one of these recipes can only happen with inputs an honest
 // committee would not certify; violations on such paths get a separate signature class.
-func recipeClass(name string) string {
+func RecipeClass(name string) string {
 	if strings.Contains(name, "double-sign(V3 delegate)") {
 		return "delegate-named-as-double-signer"
 	}
@@ -154,6 +157,7 @@ func (r *runner) step(rc *Recipe) (res stepResult) {
 	// ApplyBlock on a copy (each ApplyBlock allocates ~50 MB of signature-batch buffers)
 	spec.Strict = len(spec.Txs) == 0
 	cm, e := r.c.Step(spec)
+	runtime.GC()
 	if e != nil {
 		res.err = e
 		return
@@ -225,10 +229,20 @@ func errClass(e lib.ErrorI) string {
 	return fmt.Sprintf("%s/%d", e.Module(), e.Code())
 }
 
+// Memory discipline of a worker. Every ApplyBlock allocates ~50 MB of signature-batch buffers
+// (crypto.NewBatchVerifier: 32 lists x 20000 tuples). With the automatic collector those buffers
+// are released to the kernel and faulted in again all the time, and a first-touch page fault is
+// very expensive on this (virtualised) box: a block costs 10 ms without faults and 500 ms with
+// them. So the automatic collector is switched off and a collection is forced after every block:
+// the same two buffers are recycled for the whole life of the process.
+var tuneGC sync.Once
+
 // Exec runs one path on a fresh chain: every block goes through the real FSM and store; the
 // oracle of the job's property is evaluated on the state after the LAST block (shorter
 // prefixes were checked when they were the last block of a shorter path).
 func Exec(tag string, path []int) (out mc.ExecResult) {
+	tuneGC.Do(func() { debug.SetGCPercent(-1) })
+	defer runtime.GC()
 	job := ParseTag(tag)
 	w := GetWorld(job.World)
 	c, err := w.NewChain()
@@ -260,7 +274,7 @@ func Exec(tag string, path []int) (out mc.ExecResult) {
 	var last stepResult
 	for i, oi := range path {
 		rc := &r.alpha[oi]
-		if cl := recipeClass(rc.Name); cl != "" {
+		if cl := RecipeClass(rc.Name); cl != "" {
 			r.class = cl
 		}
 		last = r.step(rc)
@@ -332,10 +346,7 @@ func (r *runner) reportRejected(s *stepResult, viol func(kind, what string, tail
 	case "C12":
 		viol("wedge:"+errClass(s.err)+cause, what, tail)
 	case "C04":
-		// applicability is C12's business; C04 only reports it where arithmetic at the 2^64 edge is the cause
-		if r.w.Class != "" {
-			viol("block-rejected:"+errClass(s.err), what, tail)
-		}
+		// whether the next block can be applied is C12's business: C04 abandons the path (counted as rejected)
 	}
 }
 
